@@ -508,6 +508,14 @@ impl ManifestNamespace {
         ]))
     }
 
+    /// Render a value as a SQL string literal for the filters on the manifest table.
+    ///
+    /// Object ids are built from caller-supplied names, so a single quote in a name must
+    /// not end the literal: it is doubled, as SQL requires.
+    fn sql_literal(value: &str) -> String {
+        format!("'{}'", value.replace('\'', "''"))
+    }
+
     /// Get a scanner for the manifest dataset
     async fn manifest_scanner(&self) -> Result<Scanner> {
         let dataset_guard = self.manifest_dataset.get().await?;
@@ -556,7 +564,7 @@ impl ManifestNamespace {
 
     /// Check if the manifest contains an object with the given ID
     async fn manifest_contains_object(&self, object_id: &str) -> Result<bool> {
-        let filter = format!("object_id = '{}'", object_id);
+        let filter = format!("object_id = {}", Self::sql_literal(object_id));
 
         let dataset_guard = self.manifest_dataset.get().await?;
         let mut scanner = dataset_guard.scan();
@@ -587,7 +595,10 @@ impl ManifestNamespace {
 
     /// Query the manifest for a table with the given object ID
     async fn query_manifest_for_table(&self, object_id: &str) -> Result<Option<TableInfo>> {
-        let filter = format!("object_id = '{}' AND object_type = 'table'", object_id);
+        let filter = format!(
+            "object_id = {} AND object_type = 'table'",
+            Self::sql_literal(object_id)
+        );
         let mut scanner = self.manifest_scanner().await?;
         scanner.filter(&filter).map_err(|e| Error::IO {
             source: box_error(std::io::Error::other(format!("Failed to filter: {}", e))),
@@ -808,7 +819,7 @@ impl ManifestNamespace {
     /// Delete an entry from the manifest table
     pub async fn delete_from_manifest(&self, object_id: &str) -> Result<()> {
         {
-            let predicate = format!("object_id = '{}'", object_id);
+            let predicate = format!("object_id = {}", Self::sql_literal(object_id));
             let mut dataset_guard = self.manifest_dataset.get_mut().await?;
             dataset_guard
                 .delete(&predicate)
@@ -868,7 +879,10 @@ impl ManifestNamespace {
 
     /// Query the manifest for a namespace with the given object ID
     async fn query_manifest_for_namespace(&self, object_id: &str) -> Result<Option<NamespaceInfo>> {
-        let filter = format!("object_id = '{}' AND object_type = 'namespace'", object_id);
+        let filter = format!(
+            "object_id = {} AND object_type = 'namespace'",
+            Self::sql_literal(object_id)
+        );
         let mut scanner = self.manifest_scanner().await?;
         scanner.filter(&filter).map_err(|e| Error::IO {
             source: box_error(std::io::Error::other(format!("Failed to filter: {}", e))),
@@ -987,8 +1001,9 @@ impl LanceNamespace for ManifestNamespace {
             // Namespaced: find tables that start with namespace$ but have no additional $
             let prefix = namespace_id.join(DELIMITER);
             format!(
-                "object_type = 'table' AND starts_with(object_id, '{}{}') AND NOT contains(substring(object_id, {}), '$')",
-                prefix, DELIMITER, prefix.len() + 2
+                "object_type = 'table' AND starts_with(object_id, {}) AND NOT contains(substring(object_id, {}), '$')",
+                Self::sql_literal(&format!("{}{}", prefix, DELIMITER)),
+                prefix.len() + 2
             )
         };
 
@@ -1285,8 +1300,9 @@ impl LanceNamespace for ManifestNamespace {
             // Non-root: find namespaces that start with parent$ but have no additional $
             let prefix = parent_namespace.join(DELIMITER);
             format!(
-                "object_type = 'namespace' AND starts_with(object_id, '{}{}') AND NOT contains(substring(object_id, {}), '$')",
-                prefix, DELIMITER, prefix.len() + 2
+                "object_type = 'namespace' AND starts_with(object_id, {}) AND NOT contains(substring(object_id, {}), '$')",
+                Self::sql_literal(&format!("{}{}", prefix, DELIMITER)),
+                prefix.len() + 2
             )
         };
 
@@ -1434,7 +1450,7 @@ impl LanceNamespace for ManifestNamespace {
 
         // Check for child namespaces
         let prefix = format!("{}{}", object_id, DELIMITER);
-        let filter = format!("starts_with(object_id, '{}')", prefix);
+        let filter = format!("starts_with(object_id, {})", Self::sql_literal(&prefix));
         let mut scanner = self.manifest_scanner().await?;
         scanner.filter(&filter).map_err(|e| Error::IO {
             source: box_error(std::io::Error::other(format!("Failed to filter: {}", e))),
